@@ -147,6 +147,60 @@ void h_param_hash(void)
     /* --memory-leak-check */
 }
 
+/*
+ * Deleted handles (C16 / C11): a handle the user has deleted is refused by
+ * the vnacal_new_add_* functions even when this vnacal_new_t still uses (and
+ * holds) the parameter; the uses already recorded stay valid; and a
+ * correlated parameter keeps working after the handle of its initial guess
+ * was deleted (the guess is held by its referrer).
+ */
+void h_deleted_handle(void)
+{
+    IN(double, gamma);
+    double sigma[1] = { 0.1 };
+    vnacal_t *vcp;
+    vnacal_new_t *vnp;
+    vnacal_new_parameter_t *n_p, *n_c, *again;
+    int p, g, c;
+
+    ASSUME(gamma == 0.5); gamma = 0.5;	/* symbolic gamma: make_scalar branches on 0 / 1 / -1 (heap shapes merge) */
+    ghost_err_reset();
+    vcp = vnacal_create(verif_error_fn, NULL);
+    ASSUME(vcp != NULL);
+    p = vnacal_make_scalar_parameter(vcp, gamma);
+    g = vnacal_make_scalar_parameter(vcp, 0.25);
+    c = vnacal_make_correlated_parameter(vcp, g, NULL, 1, sigma);
+    ASSUME(p == 3 && g == 4 && c == 5);
+    vnp = vnacal_new_alloc(vcp, VNACAL_T8, 2, 2, 1);
+    ASSUME(vnp != NULL);
+    n_p = _vnacal_new_get_parameter("h_deleted_handle", vnp, p);
+    CHECK(n_p != NULL && ghost_err_calls == 0, "a live handle is accepted");
+
+    CHECK(vnacal_delete_parameter(vcp, p) == 0 && ghost_err_calls == 0,
+	    "deleting a handle that a calibration in progress uses succeeds");
+    again = _vnacal_new_get_parameter("h_deleted_handle", vnp, p);
+    REACH("deleted handle looked up again");
+    CHECK(again == NULL && ghost_err_calls == 1 && ghost_err_category == VNAERR_USAGE && errno == EINVAL,
+	    "the deleted handle is refused from then on, also by the calibration that still uses the parameter");
+    CHECK(n_p->vnpr_parameter != NULL && n_p->vnpr_parameter->vpmr_index == p &&
+	    n_p->vnpr_parameter->vpmr_gamma == gamma, "the use recorded before the deletion stays valid");
+
+    ghost_err_reset();
+    CHECK(vnacal_delete_parameter(vcp, g) == 0 && ghost_err_calls == 0,
+	    "the handle of a correlated parameter's initial guess can be deleted");
+    n_c = _vnacal_new_get_parameter("h_deleted_handle", vnp, c);
+    REACH("correlated parameter with a deleted guess handle looked up");
+    CHECK(n_c != NULL && ghost_err_calls == 0,
+	    "the correlated parameter stays usable: its guess is held by the referrer");
+    if (n_c != NULL)
+	CHECK(n_c->vnpr_correlate != NULL && n_c->vnpr_correlate->vnpr_parameter->vpmr_index == g,
+		"and its correlate is the (deleted, still held) guess");
+    vnacal_new_free(vnp);
+    (void)vnacal_delete_parameter(vcp, c);
+    vnacal_free(vcp);
+    /* --memory-leak-check: the deleted parameters go with their last holder */
+}
+
 #ifdef VERIF_NATIVE
 int main(void) { HARNESS(); return 0; }
 #endif
